@@ -204,4 +204,10 @@ FINDINGS = [
               'T3 ::= T0 is a further reference to it (IMPLICIT TAGS): the same octets decode to (y7, ...) or (item, ...) at the inner level depending on '
               'the order of the four assignments (T0 T1 T3 T6 vs T1 T3 T6 T0); witness texts and value in findings/data/ber-choice-alternatives-of-one-recursive-type.json',
          witness=dict(kind='custom', name='ber_choice_alternatives_of_one_recursive_type')),
+    dict(key='ber-retagged-reference-to-recursive-explicit-type', props=['C01'],
+         text='BER/DER: T4 ::= [4] EXPLICIT SEQUENCE { flag7 CHOICE { ..., b9 T1 }, ... } is recursive through T1, and T1 refers to it as '
+              'a [6] T4 inside x [3] CHOICE (IMPLICIT TAGS): the decoder rejects the encoder output with "T4.flag7.b9.x.a.T4: Expected '
+              'SEQUENCE(T4) with tag 30, but got 80" (before the repair of the shared placeholder of recursive types the same value decoded '
+              'to another value); witness text and value in findings/data/ber-retagged-reference-to-recursive-explicit-type.json',
+         witness=dict(kind='custom', name='ber_retagged_reference_to_recursive_explicit_type')),
 ]
